@@ -468,6 +468,27 @@ func c18Requests(thorough bool) map[string][]rreq {
 		}
 		ov = append(ov, rreq{Method: "POST", Path: "/ocra/validate", Fields: g})
 	}
+	// input fields of the WRONG width (and malformed hex) for each of the five fields, on suites that select the
+	// field and on suites that do not: the service must answer what the library answers for precisely these texts
+	// (no padding, trimming or truncating on the way)
+	for i, n := range names {
+		rs, ok := ref.ParseSuite(n)
+		if !ok || i%3 != 0 {
+			continue
+		}
+		sh := shapeOfRef(rs)
+		for fi, field := range []string{"counter_hex", "challenge_hex", "password_hex", "session_info_hex", "timestamp_hex"} {
+			for vi, v := range []string{"01", "1", "0132D0B6", "FF0000000000000001", "00000000000000000", "0x01", " 01", "", strings.Repeat("ab", 64), strings.Repeat("ab", 129), "zz"} {
+				if (i+fi+vi)%2 == 1 {
+					continue
+				}
+				in := ocraInputFor(sh, i)
+				in[field] = v
+				og = append(og, rreq{Method: "POST", Path: "/ocra/generate", Fields: map[string]any{"secret": u, "raw_suite": n, "input": in}})
+				ov = append(ov, rreq{Method: "POST", Path: "/ocra/validate", Fields: map[string]any{"secret": u, "raw_suite": n, "input": in, "code": ref.Format(7, sh.Digits)}})
+			}
+		}
+	}
 	// secrets whose base32 text also reads as something else (hexadecimal, decimal, base64, padded forms, other
 	// lengths): the service must hand the text to the library as it is, through all six code endpoints
 	for i, s := range lookAlikeSecrets() {
